@@ -165,9 +165,21 @@ def run(repo, rep, tier):
     rcall = rdefs[0].value
     # the file: the name bound by `with open(self.input_filename, encoding=self.encoding) as <f>`
     fname = U(rcall.args[0]) if rcall.args else None
-    opened = any(isinstance(w, ast.With) and any(it.optional_vars is not None and U(it.optional_vars) == fname and
-                                                 U(it.context_expr).replace(" ", "") == "open(self.input_filename,encoding=self.encoding)" for it in w.items)
-                 and any(n is rdefs[0] for n in ast.walk(w)) for w in body_walk(rc))
+    def opens_input(e):
+        """open(self.input_filename, encoding=self.encoding, newline='') -- the csv module needs the untranslated line
+        ends: with the default newline handling a CR or CRLF inside a quoted cell reaches the reader as LF"""
+        if not (isinstance(e, ast.Call) and call_name(e) == "open" and e.args and U(e.args[0]) == "self.input_filename"):
+            return False, False
+        kws = {k.arg: k.value for k in e.keywords}
+        enc = "encoding" in kws and U(kws["encoding"]) == "self.encoding"
+        nl = "newline" in kws and try_const(kws["newline"], default=None) == ""
+        return enc, nl
+    open_items = [it for w in body_walk(rc) if isinstance(w, ast.With) and any(n is rdefs[0] for n in ast.walk(w))
+                  for it in w.items if it.optional_vars is not None and U(it.optional_vars) == fname]
+    opened = bool(open_items) and all(opens_input(it.context_expr)[0] for it in open_items)
+    raw_newlines = bool(open_items) and all(opens_input(it.context_expr)[1] for it in open_items)
+    rep.ob("C20.R2", open_items[0].context_expr if open_items else rc, "the CSV file is opened with newline='' (line breaks inside quoted cells reach the reader untranslated)", raw_newlines,
+           "" if raw_newlines else "without newline='' the text layer turns CR and CRLF inside a quoted cell into LF: 'a\\r\\nb' is imported as 'a\\nb'", key="C20.R2@reader:newline")
     # the dialect: csv.excel (directly or through a local) with .strict = True set before the reader is built
     dkw = [kw.value for kw in rcall.keywords if kw.arg == "dialect"] + list(rcall.args[1:2])
     dname = U(dkw[0]) if dkw else None
@@ -315,6 +327,8 @@ def _anc(n):
 
 
 VARIANTS = [
+    M("revert-fix-csv-newline", "_csv2numbers.py", 'with open(self.input_filename, encoding=self.encoding, newline="") as csvfile:', "with open(self.input_filename, encoding=self.encoding) as csvfile:", "C20.R2"),
+    M("csv-opened-in-default-encoding", "_csv2numbers.py", 'with open(self.input_filename, encoding=self.encoding, newline="") as csvfile:', 'with open(self.input_filename, newline="") as csvfile:', "C20.R2"),
     M("revert-fix-nonfinite", "_csv2numbers.py", "                        number = float(v.replace(\",\", \"\"))\n                        # nan, inf and overflowing exponents are text, not numbers\n                        if math.isfinite(number):\n                            row[k] = number",
       "                        row[k] = float(v.replace(\",\", \"\"))", "C20.R1"),
     M("isfinite-negated", "_csv2numbers.py", "if math.isfinite(number):", "if not math.isnan(number):", "C20.R1"),
